@@ -14,11 +14,11 @@ Local Open Scope list_scope.
    Path.resolve, lies (part by part) under one of the two resolved roots and
    is a regular file.  No assumption on resolve / is_dir / is_file. *)
 Theorem C19_contained :
-  forall (resolve : path -> option path) (is_dir is_file : path -> bool)
+  forall (resolve : path -> option path) (is_dir is_file : path -> option bool)
          (fn : list nat) (fe_path bdir p : path),
     static resolve is_dir is_file fn fe_path bdir = Served p ->
     exists d, (resolve fe_path = Some d \/ resolve bdir = Some d) /\
-              under d p = true /\ is_file p = true /\
+              under d p = true /\ is_file p = Some true /\
               exists q, resolve q = Some p.
 Proof. exact st_contained. Qed.
 Print Assumptions C19_contained.
@@ -33,23 +33,23 @@ Print Assumptions C19_under_is_prefix.
    first root is served; one inside the second root is served when the first
    root has no file of that name *)
 Theorem C19_serves_inside :
-  forall (resolve : path -> option path) (is_dir is_file : path -> bool)
+  forall (resolve : path -> option path) (is_dir is_file : path -> option bool)
          (fn : list nat) (fe_path bdir d1 d2 p : path),
     resolve fe_path = Some d1 -> resolve bdir = Some d2 ->
     resolve (join d1 (lstrip_slash fn)) = Some p -> under d1 p = true ->
-    is_dir p = false -> is_file p = true ->
+    is_dir p = Some false -> is_file p = Some true ->
     static resolve is_dir is_file fn fe_path bdir = Served p.
 Proof. exact st_serves_first. Qed.
 Print Assumptions C19_serves_inside.
 
 Theorem C19_serves_second_root :
-  forall (resolve : path -> option path) (is_dir is_file : path -> bool)
+  forall (resolve : path -> option path) (is_dir is_file : path -> option bool)
          (fn : list nat) (fe_path bdir d1 d2 p1 p : path),
     resolve fe_path = Some d1 -> resolve bdir = Some d2 ->
     resolve (join d1 (lstrip_slash fn)) = Some p1 ->
-    is_dir p1 = false -> is_file p1 = false ->
+    is_dir p1 = Some false -> is_file p1 = Some false ->
     resolve (join d2 (lstrip_slash fn)) = Some p -> under d2 p = true ->
-    is_dir p = false -> is_file p = true ->
+    is_dir p = Some false -> is_file p = Some true ->
     static resolve is_dir is_file fn fe_path bdir = Served p.
 Proof. exact st_serves_second. Qed.
 Print Assumptions C19_serves_second_root.
@@ -63,7 +63,7 @@ Example C19_static_example :
   static StaticExamples.res StaticExamples.isd StaticExamples.isf
          [47; 46; 46; 47; 115] StaticExamples.R1 StaticExamples.R2
     = NotFound [Jail; Jail] /\
-  StaticExamples.isf StaticExamples.SECRET = true.
+  StaticExamples.isf StaticExamples.SECRET = Some true.
 Proof. vm_compute. repeat split. Qed.
 
 (* ---- access control (security.is_sanctioned generated from the source,
